@@ -34,7 +34,8 @@ def kfFlags (c : GenCfg) : List (String × GenCfg) :=
   (if c.copyNilElemPanics then [("copy-nil-elem-panics", { c with copyNilElemPanics := false })] else []) ++
   (if c.copyNilDestPanics then [("copy-nil-dest-panics", { c with copyNilDestPanics := false })] else []) ++
   (if c.resetNilPtrPanics then [("reset-nil-ptr-panics", { c with resetNilPtrPanics := false })] else []) ++
-  (if c.copyEmptyPtrCollDropped then [("copy-empty-ptr-coll-dropped", { c with copyEmptyPtrCollDropped := false })] else [])
+  (if c.copyEmptyPtrCollDropped then [("copy-empty-ptr-coll-dropped", { c with copyEmptyPtrCollDropped := false })] else []) ++
+  (if c.strAppendsOld then [("assign-str-appends", { c with strAppendsOld := false })] else [])
 
 def allFixed (c : GenCfg) : GenCfg :=
   (kfFlags c).foldl (fun _acc _x => GenCfg.fixed) c
@@ -350,6 +351,57 @@ def opCycle (st : St) (parts : List (List String)) : String :=
     | _, _, _ => "skip unresolved-input"
   | _ => "skip bad-record"
 
+def parseSrc : List String → Option Src
+  | [kind, form, vtok, ftext, pf] => do
+    let k := DynKind.ofName (if kind == "bytes" then "[]byte" else kind)
+    let v : Val ← if form == "pn" then some Val.nilptr else if k == .foreign then some Val.nilptr else (parseVal [vtok]).map (·.1)
+    let ft ← bytesOfHex (ftext.drop 1).toString
+    let pf' : PF := if pf == "e" then .err else if pf == "x" then .inexact else
+      match pf.toInt? with | some fx => .ok fx | none => .inexact
+    pure { kind := k, isPtr := form == "p" || form == "pn", v := v, ftext := ft, pf := pf' }
+  | _ => none
+
+instance : BEq AssignObs := ⟨fun a b =>
+  a.panicked == b.panicked && (a.panicked || (a.ret == b.ret && a.inBuf == b.inBuf && a.prefixKept == b.prefixKept && valContentEq a.v b.v))⟩
+
+def showAssignObs (o : AssignObs) : String :=
+  if o.panicked then "panic" else s!"ret{if o.ret then 1 else 0} {o.inBuf} {if o.prefixKept then 1 else 0} " ++ showVal o.v
+
+def assignObsModel (c : GenCfg) (dk : DynKind) (old : Val) (s : Src) (bufMode : String) : Option AssignObs :=
+  let noBuf := bufMode == "none"
+  match assignM { strAppendsOld := c.strAppendsOld } dk old s noBuf with
+  | .panic => some { panicked := true }
+  | .inexact => none
+  | .no => some { ret := false, v := old, inBuf := (if noBuf || contentLen old == 0 then "-" else "0") }
+  | .ok v =>
+    let inb :=
+      if dk.family != .text || contentLen v == 0 || noBuf then "-"
+      else if s.kind.family == .text then "0" else "1"
+    some { ret := true, v := v, inBuf := inb }
+
+/-- A <dk> <old> | <src…> | <bufmode> | ret<b> <inbuf> <keep> <val> | panic -/
+def opAssign (st : St) (head srcToks modeToks outToks : List String) : String :=
+  match head, modeToks with
+  | [_, dkTok, oldTok], [bufMode] =>
+    let dk := DynKind.ofName (if dkTok == "bytes" then "[]byte" else dkTok)
+    match parseVal [oldTok], parseSrc srcToks with
+    | some (old, _), some src =>
+      let impl : Option AssignObs := match outToks with
+        | ["panic"] => some { panicked := true }
+        | [r, inb, keep, vtok] => (parseVal [vtok]).map fun (v, _) =>
+            { ret := r == "ret1", inBuf := inb, prefixKept := keep == "1", v := v }
+        | _ => none
+      (match impl, assignObsModel st.cfg dk old src bufMode with
+       | some impl, some _ =>
+         -- the in-buffer flag of an untouched / aliased destination is not part of the tie
+         let norm (o : AssignObs) : AssignObs := if o.inBuf == "1" then o else { o with inBuf := "-" }
+         classify st.cfg (fun c => norm ((assignObsModel c dk old src bufMode).getD {}))
+           (fun o => assignAccepts dk old src (bufMode != "none") o) (norm impl) showAssignObs
+       | none, _ => "skip unparsable-outcome"
+       | _, none => "skip inexact-operand")
+    | _, _ => "skip unresolved-input"
+  | _, _ => "skip bad-record"
+
 def handle (st : St) (line : String) : St × Option String :=
   match splitBar line with
   | ("T" :: tid :: toks) :: _ =>
@@ -375,6 +427,7 @@ def handle (st : St) (line : String) : St × Option String :=
   | [head, path, arg, out] =>
     match head.head? with
     | some "C" => (st, some (opCmp st head path arg out))
+    | some "A" => (st, some (opAssign st head path arg out))
     | some "LC" => (st, some (opLC st head path arg out))
     | some "D" => (st, some (opDeq st head path arg out))
     | some "CY" => (st, some (opCycle st [head, path, arg, out]))
